@@ -285,6 +285,11 @@ impl Family for C11Family {
                             if s.prf.is_some() && c.actors[0].hmac != HmacCfg::None {
                                 stats.probe("cred_props_with_prf_on_hmac_authenticator");
                             }
+                            // what a relying party reads is the serialised response
+                            let wire = serde_json::from_str::<serde_json::Value>(&r.renders.json).ok().and_then(|v| v.pointer("/clientExtensionResults/credProps/rk").and_then(|x| x.as_bool()));
+                            if wire != Some(saved.user_handle.is_some()) {
+                                j.fail("cred-props-untruthful", format!("the serialised response carries credProps.rk = {wire:?} but the stored credential is discoverable: {}", saved.user_handle.is_some()));
+                            }
                             if *reported != Some(saved.user_handle.is_some()) {
                                 j.fail("cred-props-untruthful", format!("credProps.rk is {reported:?} but the stored credential is discoverable: {}", saved.user_handle.is_some()));
                             }
